@@ -2,6 +2,7 @@ import StunVerif.Props.C03
 import StunVerif.Props.C03Write
 import StunVerif.Props.SrcFnIter
 import StunVerif.Props.SrcFnBuilder
+import StunVerif.Props.SrcFnWrite
 #print axioms StunVerif.C03.build_shape
 #print axioms StunVerif.C03.roundtrip
 #print axioms StunVerif.C03.typed_roundtrip
@@ -25,3 +26,11 @@ import StunVerif.Props.SrcFnBuilder
 #print axioms StunVerif.SrcFnBuilder.src_integrityBytes
 #print axioms StunVerif.SrcFnBuilder.src_addMessageIntegrity
 #print axioms StunVerif.SrcFnBuilder.src_addFingerprint_full
+#print axioms StunVerif.SrcFnWrite.src_byteLen
+#print axioms StunVerif.SrcFnWrite.src_writeAttrsLoop
+#print axioms StunVerif.SrcFnWrite.encBE_mod
+#print axioms StunVerif.SrcFnWrite.tid_word
+#print axioms StunVerif.SrcFnWrite.header_puts
+#print axioms StunVerif.SrcFnWrite.src_writeInto
+#print axioms StunVerif.SrcFnWrite.src_build
+#print axioms StunVerif.SrcFnWrite.build_is_source
